@@ -78,6 +78,14 @@ fn frags(rng: &mut Rng, t: usize, c: usize) -> Vec<String> {
             },
         }
     }
+    // now and then a record of many styled fields: implementations that batch printable runs meet
+    // their batch size here
+    if rng.chance(1, 8) {
+        for k in 0..*rng.pick(&[9usize, 17, 18, 33, 40]) {
+            v.push(format!("\x1b[3{}m", k % 8));
+            v.push(format!("f{k}"));
+        }
+    }
     v.push("\x1b[0m".into());
     v.push(">".into());
     v
